@@ -67,7 +67,7 @@ MANIFEST_TEXT = {
 MANIFEST_TEXT.update({
     "C10": _mt("DESIGN.md 5 C10", "ExactlyOneFn and DeepestCommand (the node reached by following exactly the tokens with ghost role cmd) checked by TLC over command trees with functions, own/inherited options, wrappers, require-order and help; the harness's instrumented CommandFns record which function ran how often, with which context, arguments and option view, and TLC validates that against the spec. Options declared after the commands of a level (re-propagated by a later NewCommand or the help command), wrappers with own options and sub-commands, required options above wrappers and GetRequiredArg helpers with fewer named arguments than calls are covered."),
     "C11": _mt("DESIGN.md 5 C11", "RequiredEnforced checked by TLC with required options at every level x custom messages x env binding x help by option, alias, abbreviation and help command; real Parse/Dispatch errors (errors.Is(ErrorParsing), custom message), help level and executed functions validated; which of several missing options is named is left open here (C20 fixes the rule)."),
-    "C17": _mt("DESIGN.md 5 C17", "GetoptComp.tla mirrors the completion branch (earlier words parsed with the ordinary parser steps in the configured mode, candidates generated at the level reached); TLC checks CandidatesExact (the operational candidate list equals the declarative definition written from the property statement) and OfferedAccepted on every COMP_LINE up to the bound x bash/zsh; the real completion output (bag of candidates, sortedness, exactly one exit with 124, no command function run, nothing on Writer) is validated for every such line and random ones. Suggested values that end in `=`, options whose names are prefixes of each other, the lone dash option, wrappers with own options and sub-commands, help topics at nested levels and raw COMP_LINE texts are covered; the harness's dynamic completion functions answer, next to their fixed list, a candidate that spells out the arguments they were called with (target shell, the text collected so far at the level reached, the typed word / the text typed after `=`), which the specification predicts (ArgEcho / ValEcho)."),
+    "C17": _mt("DESIGN.md 5 C17", "GetoptComp.tla mirrors the completion branch (earlier words parsed with the ordinary parser steps in the configured mode, candidates generated at the level reached); TLC checks CandidatesExact (the operational candidate list equals the declarative definition written from the property statement) and OfferedAccepted on every COMP_LINE up to the bound x bash/zsh; the real completion output (bag of candidates, sortedness, exactly one exit with 124, no command function run, nothing on Writer) is validated for every such line and random ones. Suggested values that end in `=`, options whose names are prefixes of each other, the lone dash option, wrappers with own options and sub-commands, help topics at nested levels and raw COMP_LINE texts are covered; the harness's dynamic completion functions answer, next to their fixed list, a candidate that spells out the arguments they were called with (target shell, the text collected so far at the level reached, the typed word / the text typed after `=`), which the specification predicts (ArgEcho / ValEcho). One request in 29 is also executed in a child process that keeps the library's own exit function and completion writer: the process must end with status 124 after printing exactly the list seen in-process."),
     "C20": _mt("DESIGN.md 5 C20", "In the specification every outcome is a function of (definition, input): the only place where the code consults an unordered table to choose a diagnostic (missing required option) is modelled with an explicit rule (first missing name in the level's sorted name list, FixedRule); TLC validates the exact diagnostic, and every case is executed 7 times in one process (Go re-randomises map iteration per range) and again in a fresh process, with a hash over every observable (values, remaining, full error text, Writer text incl. help, completion output) required to be identical. Definitions the specification does not admit (two options sharing a key along one root-to-leaf chain) are run as determinism-only cases."),
     "C18": _mt("DESIGN.md 5 C18", "GetoptHelp.tla defines the help document of a command level (synopsis items, required / option lists with aliases, defaults, environment variables, command list, footer); the real text printed through Help(), the help option and the help command is parsed back into that structure, TLC checks (a) equality with the specified document, (b) the property statement HelpDocComplete directly on the parsed text (every option of the level exactly once in exactly one list with all aliases, required iff required, default iff not required, env iff bound; every sub-command except help exactly once), (c) the three paths give the same text; over all 12 kinds x alias counts x required x env x multi-line descriptions x levels and random definitions. The spec side of (a) is close to definitional: the weight is on the enumeration and the parse-back. Also equal to that text: Help() of the level's own object without a Parse, and the concatenation of single sections for section lists in several orders. Definitions vary in API call order (several Alias modifiers, modifiers in another order, options after commands, Var receivers holding other content)."),
     "C19": dict(_mt("DESIGN.md 5 C19", "Spec side: totality (NotStuck: the case analysis of the loop has no hole), termination (every step decreases a lexicographic variant, an action property) and ErrImpliesNilRest are checked by TLC on every family. Code side is observational, hence the level: a byte-level driver (raw random bytes as tokens, COMP_LINE words and environment values, 1000-4000 byte tokens, bundles of up to 1200 letters, int ranges at the int64 boundaries with spans <= 10^4) runs Parse / Dispatch / completion under recover and a 3 s watchdog and checks no panic, no hang, nil remaining on error and exactly one exit on the completion path; the cases representable as atoms are additionally validated against the specification."), level="exploration"),
